@@ -198,10 +198,21 @@ Judge == cur > 0 =>
 
 (* antecedent counters (vacuity control): one record of flags per node, computed once *)
 Was(s, o) == \E q \in s.orders : q.app = o.app /\ q.pair = o.pair /\ q.id = o.id /\ Live(q)
+IndexHole(s, a) == LET ids == MMXOf(s, a.app, a.pair, a.u).ids IN
+  \E i \in DOMAIN ids : \E j \in DOMAIN ids : i < j /\ ~HasOrder(s, a.app, a.pair, ids[i])
+                           /\ HasOrder(s, a.app, a.pair, ids[j]) /\ Live(OrderOf(s, a.app, a.pair, ids[j]))
 Flags(i) ==
   LET nd == Nd(i) s == Pre(i) s2 == Post(i) step == nd.parent > 0 IN
   [ step |-> step, ok |-> step /\ nd.res.ok,
     placed |-> step /\ nd.a \in {"LimitOrder", "MarketOrder", "MMOrder"} /\ nd.res.ok,
+    marketPlaced |-> step /\ nd.a = "MarketOrder" /\ nd.res.ok,
+    marketBoundary |-> step /\ nd.a = "MarketOrder" /\ nd.res.ok /\ \E o \in s2.orders \ s.orders :
+                          o.typ = "M" /\ o.dir = "B" /\ (o.price * o.amt) % PS # 0 /\ Fee(s2.par[o.app], o.offer) > Fee(s2.par[o.app], o.offer - 1),
+    feeStepPlaced |-> step /\ nd.a \in {"LimitOrder", "MarketOrder"} /\ nd.res.ok /\ \E o \in s2.orders \ s.orders :
+                          Fee(s2.par[o.app], o.offer) > Fee(s2.par[o.app], o.offer - 1),
+    roundedUpPlaced |-> step /\ nd.a \in {"LimitOrder", "MarketOrder", "MMOrder"} /\ nd.res.ok /\ \E o \in s2.orders \ s.orders :
+                          o.dir = "B" /\ (o.price * o.amt) % PS # 0,
+    marketPartialEnd |-> step /\ \E o \in s2.orders : o.typ = "M" /\ ~Live(o) /\ o.rem > 0 /\ o.rem < o.offer /\ Was(s, o),
     cancel |-> step /\ CancelAnte(nd, s),
     cancelAll |-> step /\ nd.a = "CancelAll" /\ nd.res.ok /\ CancelAllTargets(s, nd.args) # {},
     cancelAllMixed |-> step /\ nd.a = "CancelAll" /\ nd.res.ok /\ \E o \in CancelAllTargets(s, nd.args) :
@@ -209,6 +220,7 @@ Flags(i) ==
                                                 /\ (nd.args.pairs = <<>> \/ f.pair \in Range(nd.args.pairs)),
     mmImproved |-> step /\ nd.a = "EndBlock" /\ \E o \in s2.orders : o.typ = "MM" /\ o.status = "C" /\ o.rem > 0 /\ Was(s, o)
                           /\ \E x \in s2.orders : x.app = o.app /\ x.pair = o.pair /\ x.dir = o.dir /\ Live(x),
+    mmIndexHole |-> step /\ EarlierMM(nd, s) # {} /\ HasMMX(s, nd.args.app, nd.args.pair, nd.args.u) /\ IndexHole(s, nd.args),
     mm |-> step /\ EarlierMM(nd, s) # {},
     mmDiff |-> step /\ EarlierMM(nd, s) # {} /\ nd.args.app # nd.args.pair,
     mmPartial |-> step /\ EarlierMM(nd, s) # {} /\ nd.args.app = nd.args.pair /\ \E o \in EarlierMM(nd, s) : o.status = "PM",
@@ -220,6 +232,14 @@ Flags(i) ==
     emptied |-> step /\ \E p \in s2.pairs : LiveOf(s2, p) = {} /\ HasPair(s, p.app, p.id) /\ LiveOf(s, p) # {},
     farmed |-> \E pl \in s2.pools : Farmed(s2, pl) > 0,
     activeFarm |-> s2.af # {},
+    farmStaggered |-> step /\ nd.a = "EndBlock" /\ \E q \in s.qf : \E q2 \in s2.qf : q2.app = q.app /\ q2.pool = q.pool /\ q2.owner = q.owner /\ Len(q2.q) < Len(q.q)
+                         /\ \E o \in s2.qf : o.app = q.app /\ o.pool = q.pool /\ o.owner # q.owner /\ o.q # <<>>,
+    activeZeroedDiff |-> step /\ nd.a \in {"Unfarm", "UnfarmAndWithdraw"} /\ nd.res.ok /\ nd.args.pool # nd.args.app
+                         /\ \E r \in s.af : r.owner = nd.args.u /\ r.pool = nd.args.pool /\ r.app = nd.args.app
+                                              /\ ~\E r2 \in s2.af : r2.owner = r.owner /\ r2.pool = r.pool /\ r2.app = r.app,
+    farmTopUp |-> step /\ nd.a = "EndBlock" /\ \E r \in s.af : \E r2 \in s2.af : r2.app = r.app /\ r2.pool = r.pool /\ r2.owner = r.owner /\ r2.amt > r.amt,
+    farmTopUpDiff |-> step /\ nd.a = "EndBlock" /\ \E r \in s.af : \E r2 \in s2.af : r2.app = r.app /\ r2.pool = r.pool /\ r2.owner = r.owner /\ r2.amt > r.amt
+                         /\ PoolOf(s2, r.app, r.pool).pair # r.pool,
     supply |-> step /\ \E pl \in s2.pools : HasPool(s, pl.app, pl.id) /\ PoolOf(s, pl.app, pl.id).ps # pl.ps,
     pending |-> Pending(s2) # {},
     disabled |-> \E pl \in s2.pools : pl.disabled,
@@ -229,8 +249,8 @@ Flags(i) ==
     residue |-> nd.st.tainted ]
 FL == [i \in 1..NLog |-> Flags(i)]
 Cnt(f) == Cardinality({i \in 1..NLog : FL[i][f]})
-Stats == PrintT(<<"STATS", [k \in {"step", "ok", "placed", "cancel", "cancelAll", "cancelAllMixed", "mmImproved", "mm", "mmDiff", "mmPartial", "completed", "expired", "canceled", "partialEnd", "filled",
-                                   "emptied", "farmed", "activeFarm", "supply", "pending", "disabled", "zeroSupply", "activeUnfarm", "ledger", "residue"} |-> Cnt(k)]
+Stats == PrintT(<<"STATS", [k \in {"step", "ok", "placed", "marketPlaced", "marketBoundary", "feeStepPlaced", "roundedUpPlaced", "marketPartialEnd", "cancel", "cancelAll", "cancelAllMixed", "mmImproved", "mmIndexHole", "mm", "mmDiff", "mmPartial", "completed", "expired", "canceled", "partialEnd", "filled",
+                                   "emptied", "farmed", "activeFarm", "farmStaggered", "activeZeroedDiff", "farmTopUp", "farmTopUpDiff", "supply", "pending", "disabled", "zeroSupply", "activeUnfarm", "ledger", "residue"} |-> Cnt(k)]
                             @@ [nodes |-> NLog]>>)
 AllSeen == Stats /\ TLCGet("stats").distinct = NLog + NB + 1
 =============================================================================
